@@ -3,6 +3,7 @@ import HdVerif.Proofs.Offsets
 import HdVerif.Proofs.OffsetsTie
 import HdVerif.Generated.T11e
 import HdVerif.Proofs.EncapBytes
+import HdVerif.Proofs.FramePaths
 /-! # C05  Every way of fetching stored frames returns the same pixels
 
 Property theorems only (helper lemmas live in `Proofs/`).  All statements are about the
@@ -14,7 +15,7 @@ Native (unencapsulated) images.  `PixelData` of a 1-bit image is `pack frames.fl
 (DICOM PS3.5 bit order; tie C checks this against pydicom's `pack_bits`); for >= 8 bits it
 is the concatenation of the frames' bytes. -/
 namespace HdVerif.C05
-open HdVerif HdVerif.Bits HdVerif.Gen HdVerif.FrameAccess HdVerif.FrameAccessLemmas HdVerif.Offsets HdVerif.EncapBytes
+open HdVerif HdVerif.Bits HdVerif.Gen HdVerif.FrameAccess HdVerif.FrameAccessLemmas HdVerif.Offsets HdVerif.EncapBytes HdVerif.FramePaths HdVerif.FramePathsLemmas
 
 /-- Frame numbers: accepted iff inside the image, result 0-based, 1-based unless `as_index`. -/
 theorem frame_number_accepted_iff (k N : Int) (asIndex : Bool) (r : Int) :
@@ -327,6 +328,306 @@ example : memFrameBits (pack [[true,false,false,false,false,true],[true,true,fal
 
 example : memFrameBytes [[1,2],[3,4]].flatten 1 2 1 8 2 "MONOCHROME2" 2 false = .ok [3,4] :=
   memory_frame_bytes [[1,2],[3,4]] 1 2 1 8 "MONOCHROME2" (by decide) (by decide) (by simp) 1 (by simp)
+
+
+/-! ## ONE specification for every access path: frame i = slice i of the decoded pixel data
+
+`sliceBits pd N i` = bits `i*N .. (i+1)*N` of the unpacked PixelData (native 1-bit), `sliceBytes pd L i` = bytes
+`i*L .. (i+1)*L` (>= 8 bits allocated; turning the bytes into numbers and rearranging colour planes is numpy's / pydicom's
+and is the same on every path - every path hands the decoder the same parameters: `reader_forwards_every_decode_parameter`,
+T1b, `transform_forwards_every_decode_parameter`).  The theorems below hold for ARBITRARY pixel data bytes (junk in padding
+bits, data longer than the frames need), every frame count, every frame size modulo 8, every frame. -/
+
+/-- `get_stored_frame` on an in-memory native 1-bit image returns the slice -/
+theorem memory_frame_is_slice (pd : List Nat) (rows cols n i : Nat) (hi : i < n)
+    (h : (i + 1) * (rows * cols) ≤ 8 * pd.length) :
+    memFrameBits pd rows cols 1 n ((i : Int) + 1) false = .ok (sliceBits pd (rows * cols) i) :=
+  mem_frame_slice pd rows cols n i hi h
+
+/-- ... and so does the lazily read image (offset table entry, read length, bit slice) -/
+theorem lazy_frame_is_slice (pd : List Nat) (rows cols n i : Nat) (hN : 0 < rows * cols) (hi : i < n)
+    (h : (i + 1) * (rows * cols) ≤ 8 * pd.length) :
+    lazyFrameBits pd rows cols 1 n ((i : Int) + 1) false = .ok (sliceBits pd (rows * cols) i) :=
+  lazy_of_mem pd rows cols hN n i hi _ (mem_frame_slice pd rows cols n i hi h)
+
+/-- >= 8 bits allocated, in memory, every photometric interpretation: the frame's bytes are the slice - no hypothesis on
+    the pixel data at all -/
+theorem memory_bytes_is_slice (pd : List Nat) (rows cols samples bits : Nat) (pi : String) (hb : bits ≠ 1) (n i : Nat) (hi : i < n) :
+    memFrameBytes pd rows cols samples bits n pi ((i : Int) + 1) false
+      = .ok (sliceBytes pd (frameBytes rows cols samples bits pi) i) := by
+  have h1 : stdFrameIndex ((i : Int) + 1) false n = .ok (i : Int) := by
+    rw [stdFrameIndex_ok_iff]; simp; omega
+  unfold memFrameBytes Skel.frameBytes Skel.index
+  simp only [singleSkel, singleStdArgs, singleRawArgs, singleDecodeIndex, bind, Except.bind]
+  rw [h1]
+  simp only []
+  unfold memRaw
+  simp only [bind, Except.bind]
+  unfold rawFrameRange
+  have hb' : (((bits : Int)) == 1) = false := by
+    have : (bits : Int) ≠ 1 := by exact_mod_cast hb
+    simpa using this
+  simp only [hb', Bool.false_and, Bool.false_eq_true, ↓reduceIte, fdiv_pos _ 8 (by omega)]
+  have e : (bits : Int) * (if (pi == "YBR_FULL_422") = true then (rows : Int) * cols * 2 else (rows : Int) * cols * samples) / 8
+      = ((frameBytes rows cols samples bits pi : Nat) : Int) := by
+    unfold frameBytes
+    by_cases hp : pi = "YBR_FULL_422"
+    · simp [hp]
+    · have : (pi == "YBR_FULL_422") = false := by simpa using hp
+      simp [hp, this]
+  rw [e]
+  generalize frameBytes rows cols samples bits pi = L at *
+  have e2 : (i : Int) * (L : Int) = ((i * L : Nat) : Int) := by push_cast; rfl
+  have e3 : ((i * L : Nat) : Int) + (L : Int) = (((i + 1) * L : Nat) : Int) := by push_cast; ring
+  rw [e2, e3, slice_nat]
+  rfl
+
+/-- **`get_frames` (behind `get_frame` / `get_frames` with every transform off) fetches exactly like `get_stored_frame`**:
+the same raw bytes from the same place and the same index for the decoder, in memory and lazily, for every image, frame
+number and convention (regenerated loop skeleton T1c against T1b) -/
+theorem get_frames_fetch_eq_stored (lazy : Bool) (m l : Int → Except ErrKind (List Nat)) (n k : Int) (asIndex : Bool) :
+    getFramesFetch lazy m l n k asIndex = Skel.fetch singleSkel lazy m l n k asIndex :=
+  getFramesFetch_eq lazy m l n k asIndex
+
+/-- **the loop of `_get_pixels_by_frame` (behind `get_volume` and `get_total_pixel_matrix`) fetches frame index `idx` like
+`get_stored_frame(idx + 1)`**, and refuses indices outside the image -/
+theorem pixels_by_frame_fetch_eq_stored (lazy : Bool) (m l : Int → Except ErrKind (List Nat)) (n idx : Int)
+    (h0 : 0 ≤ idx) (h1 : idx < n) :
+    pixelsSkel.fetch lazy m l n idx = Skel.fetch singleSkel lazy m l n (idx + 1) false :=
+  pixelsFetch_eq lazy m l n idx h0 h1
+
+theorem pixels_by_frame_fetch_refused (lazy : Bool) (pd : List Nat) (rows cols samples bits n idx : Int) (pi : String)
+    (h : idx < 0 ∨ n ≤ idx) :
+    ∃ e, pixelsSkel.fetch lazy (memRaw pd rows cols samples bits pi) (lazyRaw pd rows cols samples bits n pi) n idx = .error e :=
+  pixelsFetch_refused lazy pd rows cols samples bits n idx pi h
+
+/-- the single fetch of `Model/FrameAccess.lean` IS `Skel.fetch` followed by the decoder (so the two theorems above are
+    statements about `memFrameBits` / `lazyFrameBits`) -/
+theorem stored_frame_is_fetch_then_decode (pd : List Nat) (rows cols samples n k : Int) (asIndex : Bool) :
+    memFrameBits pd rows cols samples n k asIndex
+      = (Skel.fetch singleSkel false (memRaw pd rows cols samples 1 "MONOCHROME2") (lazyRaw pd rows cols samples 1 n "MONOCHROME2")
+          n k asIndex >>= decodeFetchedBits rows cols samples) ∧
+    lazyFrameBits pd rows cols samples n k asIndex
+      = (Skel.fetch singleSkel true (memRaw pd rows cols samples 1 "MONOCHROME2") (lazyRaw pd rows cols samples 1 n "MONOCHROME2")
+          n k asIndex >>= decodeFetchedBits rows cols samples) := by
+  unfold memFrameBits lazyFrameBits Skel.frameBits Skel.fetch decodeFetchedBits
+  simp only [rawLazyArg, bind, Except.bind, pure, Except.pure, Bool.false_eq_true, ↓reduceIte]
+  constructor
+  · cases singleSkel.index n k asIndex with
+    | error e => rfl
+    | ok idx =>
+      simp only []
+      cases singleSkel.rawArgs k asIndex idx with
+      | error e => rfl
+      | ok p =>
+        simp only []
+        cases stdFrameIndex p.1 p.2 n with
+        | error e => rfl
+        | ok r =>
+          simp only []
+          cases memRaw pd rows cols samples 1 "MONOCHROME2" r with
+          | error e => rfl
+          | ok raw => simp only []; cases singleSkel.decodeIndex k asIndex idx <;> rfl
+  · cases singleSkel.index n k asIndex with
+    | error e => rfl
+    | ok idx =>
+      simp only []
+      cases singleSkel.rawArgs k asIndex idx with
+      | error e => rfl
+      | ok p =>
+        simp only []
+        cases stdFrameIndex p.1 p.2 n with
+        | error e => rfl
+        | ok r =>
+          simp only []
+          cases lazyRaw pd rows cols samples 1 n "MONOCHROME2" r with
+          | error e => rfl
+          | ok raw => simp only []; cases singleSkel.decodeIndex k asIndex idx <;> rfl
+
+/-- once the whole array is cached, the loops hand out the same element as `get_stored_frame` does -/
+theorem loop_cached_eq_stored_cached {α} (sk : LoopSkel) (hsk : sk = framesSkel ∨ sk = pixelsSkel) (frames : List α) (whole : α)
+    (k : Int) (asIndex : Bool) :
+    (do let idx ← stdFrameIndex k asIndex frames.length; sk.cached frames whole idx) = singleSkel.cached frames whole k asIndex :=
+  loopCached_eq sk hsk frames whole k asIndex
+
+/-- **`pixel_array` of a lazily read image** (first access; assembled from `get_stored_frame(1)` or `get_stored_frames()`,
+regenerated shape T1c) **is the list of all slices in stored order** -/
+theorem whole_array_lazy_is_all_slices (pd : List Nat) (rows cols : Nat) (hN : 0 < rows * cols) (n : Nat) (hn : 0 < n)
+    (h : n * (rows * cols) ≤ 8 * pd.length) :
+    lazyWholeBits pd rows cols 1 n = .ok ((List.range n).map (sliceBits pd (rows * cols))) :=
+  lazyWhole_slices pd rows cols hN n hn h
+
+/-- the transform object that decodes for `get_frame(s)` / `get_volume` / `get_total_pixel_matrix` feeds every parameter of
+    `decode_frame` from the image attribute of the same meaning, the raw frame it was handed and the frame index it was
+    handed (regenerated forwarding table T1c; the third site of the fixed defect C05-transform-bits-stored) -/
+theorem transform_forwards_every_decode_parameter :
+    transformDecodeArgs =
+      [("bits_allocated", "image.BitsAllocated"),
+       ("bits_stored", "image.get('BitsStored', image.BitsAllocated)"),
+       ("columns", "image.Columns"),
+       ("index", "frame_index"),
+       ("photometric_interpretation", "image.PhotometricInterpretation"),
+       ("pixel_representation", "image.PixelRepresentation"),
+       ("planar_configuration", "image.get('PlanarConfiguration')"),
+       ("rows", "image.Rows"),
+       ("samples_per_pixel", "image.SamplesPerPixel"),
+       ("transfer_syntax_uid", "image.file_meta.TransferSyntaxUID"),
+       ("value", "frame")] := by decide
+
+/-- **Every way of fetching a stored frame of a native 1-bit image returns slice `i`** - in one statement: single fetch
+in memory and lazily, by number and by index, an element of a batch, the fetch of `get_frames` and of the
+`get_volume` / `get_total_pixel_matrix` loop followed by the decoder (in memory and lazily), and the element of the
+lazily assembled whole array. -/
+theorem every_path_is_slice (pd : List Nat) (rows cols n i : Nat) (hN : 0 < rows * cols) (hi : i < n)
+    (h : n * (rows * cols) ≤ 8 * pd.length) :
+    let want : Except ErrKind (List Bool) := .ok (sliceBits pd (rows * cols) i)
+    let m := memRaw pd rows cols 1 1 "MONOCHROME2"
+    let l := lazyRaw pd rows cols 1 1 n "MONOCHROME2"
+    memFrameBits pd rows cols 1 n ((i : Int) + 1) false = want ∧
+    memFrameBits pd rows cols 1 n (i : Int) true = want ∧
+    lazyFrameBits pd rows cols 1 n ((i : Int) + 1) false = want ∧
+    batchOneBits pd rows cols 1 n ((i : Int) + 1) false = want ∧
+    (getFramesFetch false m l n ((i : Int) + 1) false >>= decodeFetchedBits rows cols 1) = want ∧
+    (getFramesFetch true m l n ((i : Int) + 1) false >>= decodeFetchedBits rows cols 1) = want ∧
+    (pixelsSkel.fetch false m l n (i : Int) >>= decodeFetchedBits rows cols 1) = want ∧
+    (pixelsSkel.fetch true m l n (i : Int) >>= decodeFetchedBits rows cols 1) = want ∧
+    (lazyWholeBits pd rows cols 1 n).map (fun fr => fr[i]?) = .ok (some (sliceBits pd (rows * cols) i)) := by
+  have hle : (i + 1) * (rows * cols) ≤ 8 * pd.length := by
+    have : (i + 1) * (rows * cols) ≤ n * (rows * cols) := Nat.mul_le_mul_right _ hi
+    omega
+  have hm := memory_frame_is_slice pd rows cols n i hi hle
+  have hl := lazy_frame_is_slice pd rows cols n i hN hi hle
+  have hd := stored_frame_is_fetch_then_decode pd rows cols 1 n ((i : Int) + 1) false
+  simp only []
+  refine ⟨hm, ?_, hl, ?_, ?_, ?_, ?_, ?_, ?_⟩
+  · rw [index_eq_number]; exact hm
+  · rw [batch_eq_single]; exact hm
+  · rw [get_frames_fetch_eq_stored, ← hd.1]; exact hm
+  · rw [get_frames_fetch_eq_stored, ← hd.2]; exact hl
+  · rw [pixels_by_frame_fetch_eq_stored _ _ _ _ _ (by omega) (by omega), ← hd.1]; exact hm
+  · rw [pixels_by_frame_fetch_eq_stored _ _ _ _ _ (by omega) (by omega), ← hd.2]; exact hl
+  · rw [whole_array_lazy_is_all_slices pd rows cols hN n (by omega) h]
+    simp [Except.map, hi]
+
+/-- non-vacuity: three 2x3 one-bit frames in 3 bytes (frame boundaries inside bytes), frame 2 -/
+example : lazyFrameBits [0x61, 0x0C, 0x2A] 2 3 1 3 2 false = .ok (sliceBits [0x61, 0x0C, 0x2A] 6 1) :=
+  lazy_frame_is_slice [0x61, 0x0C, 0x2A] 2 3 3 1 (by decide) (by decide) (by decide)
+example : sliceBits [0x61, 0x0C, 0x2A] 6 1 = [true, false, false, false, true, true] := by decide
+example : memFrameBytes [1, 2, 3, 4, 5, 6, 7] 1 2 1 8 3 "MONOCHROME2" 2 false = .ok [3, 4] :=
+  memory_bytes_is_slice [1, 2, 3, 4, 5, 6, 7] 1 2 1 8 "MONOCHROME2" (by decide) 3 1 (by decide)
+
+/-! ## Histories on one image object (cache empty / filled / stale after the PixelData value was replaced) -/
+
+/-- **After ANY history the next fetch answers from the CURRENT pixel data.**  `one` = the un-cached fetch, `all` = the
+decode of the whole array, with the laws that relate them (`hagree`: the whole array is the list of the single fetches;
+`hidx`: 0-based = 1-based - 1; `hrej`: numbers outside the image are refused).  From any state that satisfies the cache
+invariant - in particular from every state reachable from a fresh object by fetches (accepted or refused, single or
+batch), whole-array accesses and replacements of the PixelData value (`run_inv`) - a fetch through either method returns
+what a fresh object holding the current pixel data returns.  (The model of the cache is hand-written after pydicom's
+`Dataset.pixel_array`; tie C: stream `history`.  That the cached branches use the REVALIDATING property `self.pixel_array`
+is pinned by T1b / T1c.) -/
+theorem fetch_after_any_history {α} (one : List Nat → Int → Bool → Except ErrKind α) (all : List Nat → Except ErrKind (List α))
+    (n : Nat)
+    (hagree : ∀ pd fr, all pd = .ok fr → fr.length = n ∧ ∀ i (hi : i < fr.length), one pd ((i : Int) + 1) false = .ok fr[i])
+    (hidx : ∀ pd k, one pd k true = one pd (k + 1) false)
+    (hrej : ∀ pd k ai, ((if ai then k else k - 1) < 0 ∨ (n : Int) ≤ (if ai then k else k - 1)) → one pd k ai = .error .index)
+    (s0 : Img α) (hinv0 : Inv all s0) (ops : List Op) (sk : Skel) (hsk : sk = singleSkel ∨ sk = batchSkel)
+    (k : Int) (asIndex : Bool) (fr : List α) (hdec : all (run one all n s0 ops).pd = .ok fr) :
+    (fetchStep one all n sk (run one all n s0 ops) k asIndex).2 = one (run one all n s0 ops).pd k asIndex := by
+  have hinv := run_inv one all n s0 ops hinv0
+  generalize run one all n s0 ops = s at *
+  obtain ⟨hlen, hone⟩ := hagree s.pd fr hdec
+  unfold fetchStep
+  cases hc : s.cache with
+  | none => rfl
+  | some p =>
+    simp only []
+    by_cases hr : (if asIndex then k else k - 1) < 0 ∨ (n : Int) ≤ (if asIndex then k else k - 1)
+    · have : sk.index n k asIndex = .error .index := by
+        unfold Skel.index
+        rcases hsk with rfl | rfl <;>
+          simp only [singleSkel, batchSkel, singleStdArgs, batchStdArgs, bind, Except.bind, frame_number_rejected k n asIndex hr]
+      rw [this, hrej s.pd k asIndex hr]
+    · have hr0 : 0 ≤ (if asIndex then k else k - 1) := by omega
+      have hr1 : (if asIndex then k else k - 1) < (n : Int) := by omega
+      obtain ⟨i, hi⟩ : ∃ i : Nat, (i : Int) = (if asIndex then k else k - 1) := ⟨(if asIndex then k else k - 1).toNat, by omega⟩
+      have hin : i < fr.length := by omega
+      have hk : k = if asIndex then (i : Int) else (i : Int) + 1 := by cases asIndex <;> simp at hi ⊢ <;> omega
+      have hidx' : sk.index n k asIndex = .ok (i : Int) := by
+        unfold Skel.index
+        have : stdFrameIndex k asIndex n = .ok (i : Int) := by
+          rw [stdFrameIndex_ok_iff]; omega
+        rcases hsk with rfl | rfl <;>
+          simp only [singleSkel, batchSkel, singleStdArgs, batchStdArgs, bind, Except.bind, this]
+      rw [hidx']
+      simp only []
+      obtain ⟨s', hs', _, _⟩ := (revalidate_spec all s hinv).2 fr hdec
+      rw [hs']
+      simp only []
+      have hone_k : one s.pd k asIndex = .ok fr[i] := by
+        rw [hk]
+        cases asIndex
+        · exact hone i hin
+        · simp only [↓reduceIte]; rw [hidx]; exact hone i hin
+      cases fr with
+      | nil => simp at hin
+      | cons w rest =>
+        simp only []
+        have hcf := cached_frame sk hsk (w :: rest) w (by
+          intro h1
+          cases rest with
+          | nil => rfl
+          | cons _ _ => simp at h1) i hin asIndex
+        rw [← hk] at hcf
+        rw [hcf, hone_k]
+
+/-- **... instantiated for native 1-bit images**: whatever was fetched, cached or replaced before, frame `i + 1` is
+slice `i` of the pixel data the object holds NOW -/
+theorem history_native_bits (rows cols n : Nat) (hN : 0 < rows * cols) (pd0 : List Nat) (ops : List Op)
+    (sk : Skel) (hsk : sk = singleSkel ∨ sk = batchSkel) (i : Nat) (hi : i < n) :
+    let one := fun pd k ai => memFrameBits pd rows cols 1 n k ai
+    let all : List Nat → Except ErrKind (List (List Bool)) := fun pd =>
+      if n * (rows * cols) ≤ 8 * pd.length then .ok ((List.range n).map (sliceBits pd (rows * cols))) else .error .value
+    let s := run one all n ⟨pd0, none⟩ ops
+    n * (rows * cols) ≤ 8 * s.pd.length →
+      (fetchStep one all n sk s ((i : Int) + 1) false).2 = .ok (sliceBits s.pd (rows * cols) i) := by
+  intro one all s hlen
+  have hagree : ∀ pd fr, all pd = .ok fr → fr.length = n ∧ ∀ j (hj : j < fr.length), one pd ((j : Int) + 1) false = .ok fr[j] := by
+    intro pd fr h
+    simp only [all] at h
+    split at h
+    · rename_i hle
+      injection h with h
+      subst h
+      refine ⟨by simp, ?_⟩
+      intro j hj
+      simp at hj
+      have hle' : (j + 1) * (rows * cols) ≤ 8 * pd.length := by
+        have : (j + 1) * (rows * cols) ≤ n * (rows * cols) := Nat.mul_le_mul_right _ hj
+        omega
+      simp [one, memory_frame_is_slice pd rows cols n j hj hle']
+    · cases h
+  have hdec : all s.pd = .ok ((List.range n).map (sliceBits s.pd (rows * cols))) := by simp [all, hlen]
+  have := fetch_after_any_history one all n hagree (fun pd k => index_eq_number pd rows cols 1 n k)
+    (fun pd k ai h => (memory_frame_rejected pd rows cols 1 n k ai h).1) ⟨pd0, none⟩ (by intro src fr h; cases h) ops sk hsk
+    ((i : Int) + 1) false _ hdec
+  rw [this]
+  have hle' : (i + 1) * (rows * cols) ≤ 8 * s.pd.length := by
+    have : (i + 1) * (rows * cols) ≤ n * (rows * cols) := Nat.mul_le_mul_right _ hi
+    omega
+  exact memory_frame_is_slice s.pd rows cols n i hi hle'
+
+/-- non-vacuity: fetch, cache the whole array, replace the pixel data (two 1x4 frames swapped), fetch through the batch
+    method: the answer comes from the new data -/
+example :
+    (fetchStep (fun pd k ai => memFrameBits pd 1 4 1 2 k ai)
+      (fun pd => if 2 * (1 * 4) ≤ 8 * pd.length then .ok ((List.range 2).map (sliceBits pd (1 * 4))) else .error .value) 2 batchSkel
+      (run (fun pd k ai => memFrameBits pd 1 4 1 2 k ai)
+        (fun pd => if 2 * (1 * 4) ≤ 8 * pd.length then .ok ((List.range 2).map (sliceBits pd (1 * 4))) else .error .value) 2
+        ⟨[0xA5], none⟩ [.fetch 1 false, .whole, .fetch 7 false, .replace [0x5A]]) 1 false).2
+      = .ok (sliceBits [0x5A] 4 0) :=
+  history_native_bits 1 4 2 (by decide) [0xA5] [.fetch 1 false, .whole, .fetch 7 false, .replace [0x5A]] batchSkel (Or.inr rfl) 0
+    (by decide) (by decide)
 
 /-! ## Encapsulated pixel data: offset tables and the fragment walk of the lazy reader -/
 
